@@ -9,84 +9,324 @@ namespace TinyVerif.Thread
 /-- T is past its dealings with the flag (won the CAS, or lost it and freed the block) -/
 def tPastFlag (p : Bool) (t : TPc) : Bool :=
   match t with
-  | .munmap | .exit | .dead => true
-  | .freeTls | .freeBox => !p
-  | _ => false
+  | .notStarted => false
+  | .run => false
+  | .write _ => false
+  | .pRead => false
+  | .cas => false
+  | .setTid => false
+  | .freeTsm => false
+  | .freeTls => !p
+  | .freeBox => !p
+  | .munmap => true
+  | .exit => true
+  | .dead => true
 
 /-- T has released its thread-local block -/
 def tFreedTls (p : Bool) (t : TPc) : Bool :=
   match t with
-  | .freeBox | .munmap | .exit | .dead => true
-  | .cas | .setTid | .freeTsm => p
-  | _ => false
+  | .notStarted => false
+  | .run => false
+  | .write _ => false
+  | .pRead => false
+  | .cas => p
+  | .setTid => p
+  | .freeTsm => p
+  | .freeTls => false
+  | .freeBox => true
+  | .munmap => true
+  | .exit => true
+  | .dead => true
 
 def tFreedStack (t : TPc) : Bool :=
   match t with
-  | .exit | .dead => true
-  | _ => false
+  | .notStarted => false
+  | .run => false
+  | .write _ => false
+  | .pRead => false
+  | .cas => false
+  | .setTid => false
+  | .freeTsm => false
+  | .freeTls => false
+  | .freeBox => false
+  | .munmap => false
+  | .exit => true
+  | .dead => true
 
 def tFreedBox (p : Bool) (t : TPc) : Bool :=
   match t with
-  | .munmap | .exit | .dead => !p
-  | _ => false
+  | .notStarted => false
+  | .run => false
+  | .write _ => false
+  | .pRead => false
+  | .cas => false
+  | .setTid => false
+  | .freeTsm => false
+  | .freeTls => false
+  | .freeBox => false
+  | .munmap => !p
+  | .exit => !p
+  | .dead => !p
 
 /-- T lost the CAS and has not freed the block yet -/
 def tLost (t : TPc) : Bool :=
   match t with
-  | .setTid | .freeTsm => true
-  | _ => false
+  | .notStarted => false
+  | .run => false
+  | .write _ => false
+  | .pRead => false
+  | .cas => false
+  | .setTid => true
+  | .freeTsm => true
+  | .freeTls => false
+  | .freeBox => false
+  | .munmap => false
+  | .exit => false
+  | .dead => false
 
 /-- the closure body has been entered -/
 def tRan (t : TPc) : Bool :=
   match t with
-  | .notStarted | .run => false
-  | _ => true
+  | .notStarted => false
+  | .run => false
+  | .write _ => true
+  | .pRead => true
+  | .cas => true
+  | .setTid => true
+  | .freeTsm => true
+  | .freeTls => true
+  | .freeBox => true
+  | .munmap => true
+  | .exit => true
+  | .dead => true
 
 /-- T is past the write of the result slot (or in the panic handler) -/
 def tPastWrite (t : TPc) : Bool :=
   match t with
-  | .notStarted | .run | .write _ => false
-  | _ => true
+  | .notStarted => false
+  | .run => false
+  | .write _ => false
+  | .pRead => true
+  | .cas => true
+  | .setTid => true
+  | .freeTsm => true
+  | .freeTls => true
+  | .freeBox => true
+  | .munmap => true
+  | .exit => true
+  | .dead => true
 
 def hFreedTsm (h : HPc) : Bool :=
   match h with
-  | .failed _ | .joined | .dropped => true
-  | _ => false
+  | .fresh => false
+  | .sp1 => false
+  | .sp2 => false
+  | .sp3 => false
+  | .sp4 => false
+  | .uTls => false
+  | .uStack => false
+  | .uBox true => false
+  | .uBox false => false
+  | .uTsm true => false
+  | .uTsm false => false
+  | .failed true => true
+  | .failed false => true
+  | .handle => false
+  | .wLoad true => false
+  | .wLoad false => false
+  | .wSys true => false
+  | .wSys false => false
+  | .wParked true => false
+  | .wParked false => false
+  | .jRead => false
+  | .jFree => false
+  | .joined => true
+  | .dCas => false
+  | .dFree => false
+  | .detached => false
+  | .dropped => true
 
 /-- H lost the drop CAS -/
 def hLostPath (h : HPc) : Bool :=
   match h with
-  | .wLoad false | .wSys false | .wParked false | .dFree | .dropped => true
-  | _ => false
+  | .fresh => false
+  | .sp1 => false
+  | .sp2 => false
+  | .sp3 => false
+  | .sp4 => false
+  | .uTls => false
+  | .uStack => false
+  | .uBox true => false
+  | .uBox false => false
+  | .uTsm true => false
+  | .uTsm false => false
+  | .failed true => false
+  | .failed false => false
+  | .handle => false
+  | .wLoad true => false
+  | .wLoad false => true
+  | .wSys true => false
+  | .wSys false => true
+  | .wParked true => false
+  | .wParked false => true
+  | .jRead => false
+  | .jFree => false
+  | .joined => false
+  | .dCas => false
+  | .dFree => true
+  | .detached => false
+  | .dropped => true
 
 /-- H has returned from futex_wait_fast -/
 def hAfterWait (h : HPc) : Bool :=
   match h with
-  | .jRead | .jFree | .dFree | .joined | .dropped => true
-  | _ => false
+  | .fresh => false
+  | .sp1 => false
+  | .sp2 => false
+  | .sp3 => false
+  | .sp4 => false
+  | .uTls => false
+  | .uStack => false
+  | .uBox true => false
+  | .uBox false => false
+  | .uTsm true => false
+  | .uTsm false => false
+  | .failed true => false
+  | .failed false => false
+  | .handle => false
+  | .wLoad true => false
+  | .wLoad false => false
+  | .wSys true => false
+  | .wSys false => false
+  | .wParked true => false
+  | .wParked false => false
+  | .jRead => true
+  | .jFree => true
+  | .joined => true
+  | .dCas => false
+  | .dFree => true
+  | .detached => false
+  | .dropped => true
 
 def hReadDone (h : HPc) : Bool :=
   match h with
-  | .jFree | .joined => true
-  | _ => false
+  | .fresh => false
+  | .sp1 => false
+  | .sp2 => false
+  | .sp3 => false
+  | .sp4 => false
+  | .uTls => false
+  | .uStack => false
+  | .uBox true => false
+  | .uBox false => false
+  | .uTsm true => false
+  | .uTsm false => false
+  | .failed true => false
+  | .failed false => false
+  | .handle => false
+  | .wLoad true => false
+  | .wLoad false => false
+  | .wSys true => false
+  | .wSys false => false
+  | .wParked true => false
+  | .wParked false => false
+  | .jRead => false
+  | .jFree => true
+  | .joined => true
+  | .dCas => false
+  | .dFree => false
+  | .detached => false
+  | .dropped => false
 
 def tlsH (h : HPc) : RSt :=
   match h with
-  | .sp4 | .uTls => .live
-  | .uStack | .uBox true | .uTsm true | .failed true => .freed
-  | _ => .unalloc
+  | .fresh => .unalloc
+  | .sp1 => .unalloc
+  | .sp2 => .unalloc
+  | .sp3 => .unalloc
+  | .sp4 => .live
+  | .uTls => .live
+  | .uStack => .freed
+  | .uBox true => .freed
+  | .uBox false => .unalloc
+  | .uTsm true => .freed
+  | .uTsm false => .unalloc
+  | .failed true => .freed
+  | .failed false => .unalloc
+  | .handle => .unalloc
+  | .wLoad true => .unalloc
+  | .wLoad false => .unalloc
+  | .wSys true => .unalloc
+  | .wSys false => .unalloc
+  | .wParked true => .unalloc
+  | .wParked false => .unalloc
+  | .jRead => .unalloc
+  | .jFree => .unalloc
+  | .joined => .unalloc
+  | .dCas => .unalloc
+  | .dFree => .unalloc
+  | .detached => .unalloc
+  | .dropped => .unalloc
 
 def stackH (h : HPc) : RSt :=
   match h with
-  | .sp3 | .sp4 | .uTls | .uStack => .live
-  | .uBox true | .uTsm true | .failed true => .freed
-  | _ => .unalloc
+  | .fresh => .unalloc
+  | .sp1 => .unalloc
+  | .sp2 => .unalloc
+  | .sp3 => .live
+  | .sp4 => .live
+  | .uTls => .live
+  | .uStack => .live
+  | .uBox true => .freed
+  | .uBox false => .unalloc
+  | .uTsm true => .freed
+  | .uTsm false => .unalloc
+  | .failed true => .freed
+  | .failed false => .unalloc
+  | .handle => .unalloc
+  | .wLoad true => .unalloc
+  | .wLoad false => .unalloc
+  | .wSys true => .unalloc
+  | .wSys false => .unalloc
+  | .wParked true => .unalloc
+  | .wParked false => .unalloc
+  | .jRead => .unalloc
+  | .jFree => .unalloc
+  | .joined => .unalloc
+  | .dCas => .unalloc
+  | .dFree => .unalloc
+  | .detached => .unalloc
+  | .dropped => .unalloc
 
 def boxH (h : HPc) : RSt :=
   match h with
-  | .fresh | .sp1 => .unalloc
-  | .uTsm _ | .failed _ => .freed
-  | _ => .live
+  | .fresh => .unalloc
+  | .sp1 => .unalloc
+  | .sp2 => .live
+  | .sp3 => .live
+  | .sp4 => .live
+  | .uTls => .live
+  | .uStack => .live
+  | .uBox true => .live
+  | .uBox false => .live
+  | .uTsm true => .freed
+  | .uTsm false => .freed
+  | .failed true => .freed
+  | .failed false => .freed
+  | .handle => .live
+  | .wLoad true => .live
+  | .wLoad false => .live
+  | .wSys true => .live
+  | .wSys false => .live
+  | .wParked true => .live
+  | .wParked false => .live
+  | .jRead => .live
+  | .jFree => .live
+  | .joined => .live
+  | .dCas => .live
+  | .dFree => .live
+  | .detached => .live
+  | .dropped => .live
 
 def tlsOf (x : Inst) : RSt :=
   if spawnedOk x.h then (if tFreedTls x.panicked x.t then .freed else .live) else tlsH x.h
